@@ -3,7 +3,7 @@ CFG = {
         "props": ["EraVerif.Props.C10"],
         "required_theorems": [
             "mux_dispatch_total", "mux_dispatch_refines_spec", "mux_dispatch_err_iff", "mux_dispatch_legacy_panics",
-            "read_exact_arm_total", "mux_data_split_bounded", "mux_inbound_never_panics_and_bounded",
+            "read_exact_arm_total", "mux_data_split_bounded", "mux_inbound_never_panics_and_bounded", "parked_frames_hold_permits", "control_frames_hold_permits",
             "mux_inbound_terminates", "spawn_ids_in_range", "mux_handshake_read_total",
             "frame_len_checked_before_alloc", "frame_recv_ok_iff", "mux_recv_ok_iff", "truncated_frame_rejected", "frame_unchecked_allocates", "preface_alloc_bounded",
             "noise_buffers_in_bounds", "noise_frame_always_fits",
@@ -77,7 +77,9 @@ CFG = {
                 "retyped field, unknown field, random bytes) re-decoded reflectively; mux: every 3-bit kind pattern x ids "
                 "around the table sizes, N/2 random 16-bit headers (thorough: all 65536), truncated inputs, N/2 random frame "
                 "sequences against small (read_frame_size, read_buffer_size, read_frame_count) with and without OPEN, maximal "
-                "DATA frames, mux handshakes with missing/duplicate/maximal capabilities incl. 8192+8192 streams; frames: "
+                "DATA frames, 11 floods of 64 kB..256 kB (thorough: 1 MiB) of OPEN / CLOSE / alternating OPEN-CLOSE-zero-length-DATA / "
+                "small-DATA frames for one opened stream whose consumer is parked, under the production and a small config (monitor: "
+                "bytes taken from the transport <= 2 + 4*read_frame_count + read_buffer_size + 4 + read_frame_size + permit-free bytes), mux handshakes with missing/duplicate/maximal capabilities incl. 8192+8192 streams; frames: "
                 "length prefix = true / max / max+1 / 2^26 / 2^32-1 / body+-1, truncations; RPC calls by a raw mux peer per "
                 "capability; ~85 `trunc` cases: valid push_validator_addrs (1/2/5 entries), get_block response/request, ping, "
                 "push_tx, push_block_store_state and consensus requests announced with their full length on a real mux stream "
